@@ -8,6 +8,7 @@ the implementation), apply it to the real code and to the model, and compare
 observables.  Everything that happened is recorded in the *trace*, a list of
 self-contained JSON operations; replaying a trace never touches a PRNG.
 """
+import gc
 import hashlib
 import json
 import os
@@ -164,8 +165,25 @@ class RunResult:
         return (self.violation.oracle, self.vop)
 
 
+_GC_OWNED = False
+
+
+def own_gc():
+    """The cyclic garbage collector is a scheduler of its own (it decides when finalisers of
+    unreachable cycles run).  The simulator takes it over: automatic collection is off, what
+    exists after start-up is frozen (so that a collection only looks at what the runs made),
+    and a collection happens at the end of every run and wherever a machine asks for one."""
+    global _GC_OWNED
+    if not _GC_OWNED:
+        gc.collect()
+        gc.freeze()
+        gc.disable()
+        _GC_OWNED = True
+
+
 def execute(mcls, config, ops=None, rng=None, known=None, keep_events=False):
     """Run one history.  Either `ops` (replay) or `rng` (generation) is given."""
+    own_gc()
     res = RunResult()
     res.config = config
     m = mcls(config)
@@ -234,11 +252,15 @@ def execute(mcls, config, ops=None, rng=None, known=None, keep_events=False):
             m.stop()
     if res.violation is not None:
         h.update(jdump(["VIOLATION", res.violation.oracle, res.vop]).encode())
+        res.violation.__traceback__ = None      # would keep the machine's frames alive
     res.digest = h.hexdigest()
     res.stats = m.stats
     res.signature = hashlib.sha256(jdump(sig).encode()).digest()[:8]
     res.transitions = trans
     res.nontrivial = bool(m.nontrivial)
+    # drop the machine and collect what the run left behind now, not during a later run
+    m = None
+    gc.collect()
     if events is not None:
         res.error = events   # reuse slot: event list for --replay -v / selftest dumps
     return res
